@@ -119,6 +119,8 @@ func Load(dir string, needSSA bool, extraEnv ...string) (*Program, error) {
 	curProgram = p
 	roTableCache = map[*ssa.Global]*roTable{}
 	p.resolveRenames()
+	p.resolveFieldRenames()
+	p.resolveGlobalRenames()
 	return p, nil
 }
 
@@ -146,6 +148,103 @@ func sigKey(f *ssa.Function) string {
 		variadic = "..."
 	}
 	return funcPkgPath(f) + "|" + recv + "|(" + tuple(f.Signature.Params()) + variadic + ")(" + tuple(f.Signature.Results()) + ")" + fmt.Sprint(f.Signature.TypeParams().Len())
+}
+
+// globalAlias: package-level variables of the module the rules know under another name than the analysed tree uses.
+var globalAlias = map[*ssa.Global]string{}
+
+// resolveGlobalRenames: a known package-level variable (knownGlobals: "pkgpath.name" -> type) that is missing, and
+// exactly one variable of that package the tables do not know with the same type.
+func (p *Program) resolveGlobalRenames() {
+	globalAlias = map[*ssa.Global]string{}
+	for _, pk := range p.Pkgs {
+		sp := p.SSAPkgs[pk.PkgPath]
+		if sp == nil {
+			continue
+		}
+		prefix := pk.PkgPath + "."
+		present := map[string]*ssa.Global{}
+		for name, m := range sp.Members {
+			if g, ok := m.(*ssa.Global); ok {
+				present[name] = g
+			}
+		}
+		var missing []string
+		for k := range knownGlobals {
+			if strings.HasPrefix(k, prefix) && !strings.Contains(strings.TrimPrefix(k, prefix), "/") && present[strings.TrimPrefix(k, prefix)] == nil {
+				missing = append(missing, k)
+			}
+		}
+		sort.Strings(missing)
+		used := map[*ssa.Global]bool{}
+		for _, k := range missing {
+			var cands []*ssa.Global
+			for name, g := range present {
+				if _, known := knownGlobals[prefix+name]; known || used[g] || strings.HasPrefix(name, "init$") {
+					continue
+				}
+				if g.Type().String() == knownGlobals[k] {
+					cands = append(cands, g)
+				}
+			}
+			if len(cands) == 1 {
+				globalAlias[cands[0]] = strings.TrimPrefix(k, prefix)
+				used[cands[0]] = true
+			}
+		}
+	}
+}
+
+// fieldAlias: unexported struct fields the rules know under another name than they carry in the analysed tree.
+var fieldAlias = map[*types.Var]string{}
+
+// resolveFieldRenames: for every field of a module struct the pinned tree has (knownFields: "Type.field" -> type) that
+// the analysed tree lacks, the one field of that struct the rule tables do not know that has the same type takes its
+// place. Several candidates, or none: no alias.
+func (p *Program) resolveFieldRenames() {
+	fieldAlias = map[*types.Var]string{}
+	for _, pk := range p.Pkgs {
+		scope := pk.Types.Scope()
+		for _, tn := range scope.Names() {
+			obj, ok := scope.Lookup(tn).(*types.TypeName)
+			if !ok {
+				continue
+			}
+			st, ok := obj.Type().Underlying().(*types.Struct)
+			if !ok {
+				continue
+			}
+			present := map[string]bool{}
+			for i := 0; i < st.NumFields(); i++ {
+				present[st.Field(i).Name()] = true
+			}
+			prefix := tn + "."
+			var missing []string
+			for k := range knownFields {
+				if strings.HasPrefix(k, prefix) && !present[strings.TrimPrefix(k, prefix)] {
+					missing = append(missing, k)
+				}
+			}
+			sort.Strings(missing)
+			used := map[*types.Var]bool{}
+			for _, k := range missing {
+				var cands []*types.Var
+				for i := 0; i < st.NumFields(); i++ {
+					f := st.Field(i)
+					if _, known := knownFields[prefix+f.Name()]; known || used[f] {
+						continue
+					}
+					if f.Type().String() == knownFields[k] {
+						cands = append(cands, f)
+					}
+				}
+				if len(cands) == 1 {
+					fieldAlias[cands[0]] = strings.TrimPrefix(k, prefix)
+					used[cands[0]] = true
+				}
+			}
+		}
+	}
 }
 
 // resolveRenames: for every unexported function of the pinned tree (knownSigs) that the analysed tree no longer has
